@@ -150,7 +150,7 @@ func genStream(r *kit.Rng, cd codec, large int) []vegeta.Result {
 	n := 1 + r.Pick(5)
 	rs := make([]vegeta.Result, n)
 	for i := range rs {
-		o := gen.ResultOpts{MaxBody: 40, NoZoneMinus1: true}
+		o := gen.ResultOpts{MaxBody: 40, NoZoneMinus1: true, Zone: cd.name == "gob", ZoneOddSeconds: cd.name == "gob"}
 		switch cd.name {
 		case "csv":
 			o.Text = gen.TextOpts{MaxLen: 30}
@@ -168,6 +168,50 @@ func genStream(r *kit.Rng, cd codec, large int) []vegeta.Result {
 		}
 	}
 	return rs
+}
+
+// runBoundaryStreams: streams with records whose encoded size sits around and between common buffer
+// sizes (4 KiB bufio, 64 KiB, 128 KiB, 256 KiB); only the points between Encode calls are cut
+// (each must be a record boundary) plus a few offsets around them, so large records stay cheap.
+func runBoundaryStreams(r *kit.Rng, s *kit.Summary, cd codec, n int) {
+	bands := [][2]int{{2500, 5000}, {7000, 9000}, {30000, 34000}, {45000, 52000}, {60000, 70000}, {70000, 100000}, {100000, 140000}, {180000, 270000}}
+	for i := 0; i < n; i++ {
+		rs := genStream(r, cd, 0)
+		k := r.Pick(len(rs))
+		band := bands[(i+r.Pick(2))%len(bands)]
+		enc := band[0] + r.Pick(band[1]-band[0])
+		b := make([]byte, enc*3/4) // base64 expands by 4/3 in json and csv
+		if cd.name == "gob" {
+			b = make([]byte, enc)
+		}
+		r.Read(b)
+		rs[k].Body = b
+		st, status := encodeStream(cd, rs)
+		if status != "ok" {
+			s.Violate(kit.Violation{Kind: "encode_failed", What: "encoder failed on a result of the representable domain", Input: st.Results, Observed: status})
+			continue
+		}
+		s.Count(fmt.Sprintf("%s:boundary-stream-band=%d", cd.name, band[0]))
+		s.Case(fmt.Sprint(cd.name, ":boundary:", st.hash), true)
+		for j, bnd := range st.bounds {
+			got, term := decodePrefix(cd, st.data[:bnd])
+			if len(got) != j+1 || term != "eof" {
+				s.Violate(kit.Violation{Kind: "encode_not_whole_record", What: "after an Encode call returned, the bytes handed to the writer do not decode to exactly the records encoded so far (a record is held back or torn)",
+					Input:    map[string]interface{}{"codec": cd.name, "body_sizes": bodySizes(rs), "call": j + 1, "bytes_at_writer": bnd},
+					Expected: fmt.Sprintf("%d records then eof", j+1), Observed: fmt.Sprintf("%d records then %s", len(got), term),
+					Key: map[string]interface{}{"codec": cd.name}})
+				break
+			}
+		}
+	}
+}
+
+func bodySizes(rs []vegeta.Result) []int {
+	out := make([]int, len(rs))
+	for i := range rs {
+		out[i] = len(rs[i].Body)
+	}
+	return out
 }
 
 func ints(xs []int) string {
@@ -247,6 +291,8 @@ func runStreams(c *run.Ctx, r *kit.Rng, s *kit.Summary, cd codec, nStreams int, 
 			} else {
 				// gob issues one Write per message: the model's frame parser must find exactly these messages
 				model.Add("c09.framebounds "+kit.Hex(st.data), ints(cum(st.writes))+" | eof")
+				// record level: the model decoder completes a result exactly at every Encode boundary
+				model.Add("c09.gobbounds "+kit.Hex(st.data), ints(st.bounds)+" | eof")
 			}
 		}
 		// the model decoders on a sample of cut streams (strict comparison with the real decoder)
@@ -273,6 +319,20 @@ func runStreams(c *run.Ctx, r *kit.Rng, s *kit.Summary, cd codec, nStreams int, 
 				end = "eof"
 			}
 			cuts.Add("c09.framebounds "+kit.Hex(st.data[:k]), ints(want)+" | "+end)
+			recs := []int{}
+			for _, b := range st.bounds {
+				if b <= k {
+					recs = append(recs, b)
+				}
+			}
+			// io.EOF only between records: after type definitions a value message must follow
+			rend := "err"
+			if k == 0 || (len(recs) > 0 && recs[len(recs)-1] == k) {
+				rend = "eof"
+			}
+			cuts.Add("c09.gobbounds "+kit.Hex(st.data[:k]), ints(recs)+" | "+rend)
+			got, term := decodePrefix(cd, st.data[:k])
+			cuts.Add("c07.decgob "+kit.Hex(st.data[:k]), gen.ResultsLine(got, term, false))
 		}
 	}
 	model.Diff(c.Driver, s)
@@ -332,9 +392,11 @@ func runC09(c *run.Ctx, s *kit.Summary) {
 		switch cd.name {
 		case "csv":
 			runStreams(c, r, s, cd, c.N(1500, 60000), 20000, c.N(20, 300))
+			runBoundaryStreams(r, s, cd, c.N(48, 800))
 		default:
 			// ~600 bytes per stream on average
 			runStreams(c, r, s, cd, c.N(50, 3500), c.N(6000, 30000), c.N(2, 12))
+			runBoundaryStreams(r, s, cd, c.N(48, 800))
 		}
 	}
 }
